@@ -1,5 +1,11 @@
-(* C12 -- DCE/RPC and endpoint-mapper wire codecs are inverse; decoders terminate. Statements only. *)
-From V Require Import Prelude.Base gen.K_rpc gen.C_rpc Proofs.RpcKernels.
+(* C12 -- DCE/RPC and endpoint-mapper wire codecs are inverse; decoders terminate. Statements only.
+   Models: Model/Pdu.v Request.v Bind.v RpcDispatch.v Verification.v Epm.v; k_* / c_* are regenerated from
+   the Python source on every run. wf_* are the boolean well-formedness predicates of the model files
+   (field ranges = the widths pack writes, enum members, header frag_len/auth_len consistent with the
+   message). pdu_unpack fuel bs returns the decoded PDU and the number of loop iterations (ticks). *)
+From V Require Import Prelude.Base Prelude.PyInt Prelude.PySlice Prelude.PyStr gen.K_rpc gen.C_rpc.
+From V Require Import Model.Pdu Model.Request Model.RpcLoop Model.Bind Model.RpcDispatch Model.Epm.
+From V Require Import Proofs.RpcKernels Proofs.RpcPdu Proofs.RpcBind Proofs.RpcRoundtrip Proofs.RpcEpm.
 
 (* ---- padding kernels (regenerated from _bind.py / _epm.py) ---- *)
 Theorem C12_pad_bindack : forall n, k_bindack_pack_pad n = k_bindack_unpack_pad n /\
@@ -7,13 +13,111 @@ Theorem C12_pad_bindack : forall n, k_bindack_pack_pad n = k_bindack_unpack_pad 
 Proof. exact (fun n => conj (bindack_pad_agree n) (bindack_pad_range n)). Qed.
 Print Assumptions C12_pad_bindack.
 
+Theorem C12_pad_bindnak : forall n, 0 <= k_bindnak_pad n < 4 /\ (2 + n + k_bindnak_pad n) mod 4 = 0.
+Proof. exact bindnak_pad_range. Qed.
+Print Assumptions C12_pad_bindnak.
+
 Theorem C12_pad_eptmap : forall n, k_eptmap_pack_pad n = k_eptmap_unpack_pad n /\
   0 <= k_eptmap_pack_pad n < 8 /\ (12 + n + k_eptmap_pack_pad n) mod 8 = 0.
 Proof. exact (fun n => conj (eptmap_pad_agree n) (eptmap_pad_range n)). Qed.
 Print Assumptions C12_pad_eptmap.
 
-(* between two towers EptMapResult.pack emits exactly the padding EptMapResult.unpack skips *)
+(* between two towers EptMapResult.pack emits exactly the padding EptMapResult.unpack skips; after the last
+   tower it aligns the status to 4 *)
 Theorem C12_pad_eptmapresult : forall n idx cnt, 0 <= idx -> idx + 1 < cnt ->
   k_eptres_pack_pad n idx cnt = k_eptres_unpack_pad n.
 Proof. exact eptres_pad_inner. Qed.
 Print Assumptions C12_pad_eptmapresult.
+Theorem C12_pad_eptmapresult_last : forall n idx cnt, idx + 1 = cnt ->
+  0 <= k_eptres_pack_pad n idx cnt < 4 /\ (12 + n + k_eptres_pack_pad n idx cnt) mod 4 = 0.
+Proof. exact eptres_pad_last. Qed.
+Print Assumptions C12_pad_eptmapresult_last.
+
+(* the dispatch keys of the model are exactly the registered packet types / commands / floors *)
+Theorem C12_registries :
+  c_PDU_registry = [c_PT_REQUEST; c_PT_RESPONSE; c_PT_FAULT; c_PT_BIND; c_PT_BIND_ACK; c_PT_BIND_NAK; c_PT_ALTER_CONTEXT; c_PT_ALTER_CONTEXT_RESP]
+  /\ c_CMD_registry = [c_CMD_BITMASK_1; c_CMD_PCONTEXT; c_CMD_HEADER2]
+  /\ c_FLOOR_registry = [c_FLOOR_TCP; c_FLOOR_IP; c_FLOOR_RPC_CO; c_FLOOR_UUID].
+Proof. exact (conj pdu_registry_spec (conj cmd_registry_spec floor_registry_spec)). Qed.
+Print Assumptions C12_registries.
+
+(* ---- building blocks ---- *)
+Theorem C12_rt_header : forall h rest, wf_pdu_header h = true -> pdu_header_unpack (pdu_header_pack h ++ rest) = Ok h.
+Proof. exact pdu_header_unpack_pack. Qed.
+Print Assumptions C12_rt_header.
+
+Theorem C12_rt_sec_trailer : forall s, wf_sec_trailer s = true -> sec_trailer_unpack (sec_trailer_pack s) = Ok s.
+Proof. exact sec_trailer_unpack_pack. Qed.
+Print Assumptions C12_rt_sec_trailer.
+
+(* PDU.unpack up to the dispatch: body, header and security trailer come back as packed (auth value of any length) *)
+Theorem C12_rt_split : forall h body st, wf_pdu_header h = true ->
+  wf_lengths h (len (pdu_header_pack h ++ body ++ opt_sec_trailer_pack st)) st = true ->
+  pdu_split (pdu_header_pack h ++ body ++ opt_sec_trailer_pack st) = Ok (body, h, st).
+Proof. exact pdu_split_pack. Qed.
+Print Assumptions C12_rt_split.
+
+(* ---- PDU.unpack (M.pack m) = m for the eight PDU types (decoded message equal to the packed one, hence
+        M.pack m' = M.pack m); what the client decodes first ---- *)
+Theorem C12_rt_bind_ack : forall m packed bsa fuel,
+  sec_addr_bytes (ba_sec_addr m) = Ok bsa -> bind_ack_pack m = Ok packed ->
+  wf_bind_ack_as c_PT_BIND_ACK m packed bsa = true -> (length packed <= fuel)%nat ->
+  pdu_unpack fuel packed = Ok (PBindAck m, len (ba_results m)).
+Proof. exact rt_bind_ack. Qed.
+Print Assumptions C12_rt_bind_ack.
+
+Theorem C12_rt_alter_context_resp : forall m packed bsa fuel,
+  sec_addr_bytes (ba_sec_addr m) = Ok bsa -> bind_ack_pack m = Ok packed ->
+  wf_bind_ack_as c_PT_ALTER_CONTEXT_RESP m packed bsa = true -> (length packed <= fuel)%nat ->
+  pdu_unpack fuel packed = Ok (PAlterContextResp m, len (ba_results m)).
+Proof. exact rt_alter_context_resp. Qed.
+Print Assumptions C12_rt_alter_context_resp.
+
+Theorem C12_rt_bind_nak : forall m fuel, wf_bind_nak m = true -> (length (bind_nak_pack m) <= fuel)%nat ->
+  pdu_unpack fuel (bind_nak_pack m) = Ok (PBindNak m, len (bn_versions m)).
+Proof. exact rt_bind_nak. Qed.
+Print Assumptions C12_rt_bind_nak.
+
+Theorem C12_rt_fault : forall m fuel, wf_fault m = true -> pdu_unpack fuel (fault_pack m) = Ok (PFault m, 0).
+Proof. exact rt_fault. Qed.
+Print Assumptions C12_rt_fault.
+
+Theorem C12_rt_response : forall m fuel, wf_response m = true -> pdu_unpack fuel (response_pack m) = Ok (PResponse m, 0).
+Proof. exact rt_response. Qed.
+Print Assumptions C12_rt_response.
+
+Theorem C12_rt_request : forall m fuel, wf_request m = true -> pdu_unpack fuel (request_pack m) = Ok (PRequest m, 0).
+Proof. exact rt_request. Qed.
+Print Assumptions C12_rt_request.
+
+Theorem C12_rt_bind : forall m fuel, wf_bind m = true -> (length (bind_pack m) <= fuel)%nat ->
+  pdu_unpack fuel (bind_pack m) = Ok (PBind m, ce_ticks (b_contexts m)).
+Proof. exact rt_bind. Qed.
+Print Assumptions C12_rt_bind.
+
+Theorem C12_rt_alter_context : forall m fuel, wf_alter_context m = true -> (length (bind_pack m) <= fuel)%nat ->
+  pdu_unpack fuel (bind_pack m) = Ok (PAlterContext m, ce_ticks (b_contexts m)).
+Proof. exact rt_alter_context. Qed.
+Print Assumptions C12_rt_alter_context.
+
+(* ---- endpoint mapper: floors (known and unknown protocols) and EptMapResult; the decoded value carries the raw
+        lhs/rhs caches pack emits (floor_norm), and re-packing it gives the same bytes ---- *)
+Theorem C12_rt_floor : forall f rest, wf_floor f = true ->
+  floor_unpack (floor_pack f ++ rest) = Ok (floor_norm f) /\ floor_pack (floor_norm f) = floor_pack f.
+Proof. exact (fun f rest H => conj (floor_rt f rest H) (floor_pack_norm f)). Qed.
+Print Assumptions C12_rt_floor.
+
+Theorem C12_rt_ept_map_result : forall m fuel, wf_ept_map_result m = true -> (length (ept_map_result_pack m) <= fuel)%nat ->
+  ept_map_result_unpack fuel (ept_map_result_pack m) = Ok (ept_map_result_norm m, tower_ticks (er_towers m))
+  /\ ept_map_result_pack (ept_map_result_norm m) = ept_map_result_pack m.
+Proof. exact (fun m fuel H Hf => conj (ept_map_result_rt m fuel H Hf) (ept_map_result_pack_norm m)). Qed.
+Print Assumptions C12_rt_ept_map_result.
+
+(* ---- the hypotheses are satisfiable by non-trivial messages ---- *)
+Example C12_example_bind_ack : exists m packed bsa,
+  ba_sec_addr m = [52; 57; 54; 54; 56] /\ length (ba_results m) = 2%nat /\
+  sec_addr_bytes (ba_sec_addr m) = Ok bsa /\ bind_ack_pack m = Ok packed /\ wf_bind_ack_as c_PT_BIND_ACK m packed bsa = true.
+Proof. exact example_bind_ack. Qed.
+Example C12_example_ept_map_result : exists m, length (er_towers m) = 2%nat /\ wf_ept_map_result m = true
+  /\ len (tower_bytes (hd [] (er_towers m))) mod 8 = 0.
+Proof. exact example_ept_map_result. Qed.
